@@ -139,7 +139,7 @@ var c19Seps = []string{"", " ", "\n", "\r\n", "\t\n  ", " // c\n", "\n// comment
 	" // x\u0085S9F9 W .\n", " // x\u2028S9F9 W .\u2029 <L> .\n", " // \" unbalanced quote . S9F9 W .\n", " // ' . > < [ ] S9F9\r\n", " //// . //\n"}
 
 func runC19(c *ctx) {
-	c.Rule = "sequences of 2-4 accepted texts (each 1-2 messages in varied literal forms and layouts, ending in the terminator optionally followed by blanks or line-terminated comments) joined by every separator the grammar allows after a terminator (nothing, blanks, line breaks, CRLF, comments); deliberately reused variable names, ellipses in several parts, missing directions (warnings), item-less messages followed by messages that start with every header token kind. Oracle: the concatenation is accepted, its messages equal the concatenation of the messages of the parts parsed alone (all observers, Variables() verbatim), its warnings equal the parts' warnings shifted by each part's start position. non-trivial = at least two parts that share a variable name or both contain an ellipsis; distinct by text"
+	c.Rule = "sequences of 2-4 accepted texts (each 1-2 messages in varied literal forms and layouts, ending in the terminator optionally followed by blanks or line-terminated comments) joined by every separator the grammar allows after a terminator (nothing, blanks, line breaks, CRLF, comments); deliberately reused variable names, ellipses in several parts, missing directions (warnings), item-less messages followed by messages that start with every header token kind. Oracle: the concatenation is accepted, its messages equal the concatenation of the messages of the parts parsed alone (all observers, Variables() verbatim), its warnings equal the parts' warnings shifted by each part's start position. non-trivial = at least two parts that share a variable name or both contain an ellipsis; distinct by text Also (rounds 4-8): separator comments with message-like text after CR/FF/VT/NEL/U+2028; the same literal under different item types in consecutive messages; 254..513 (thorough 66000) messages in one text; digit-suffixed names in every message; thousands of warnings; characters whose case mapping changes their byte length."
 	c.Assume = []string{"a part never ends in an unterminated // comment (that would comment out the start of the next part, which is what a line comment is)"}
 	n := c.pick(25000, 600000)
 	c.parallel(n, func(i int, r *rng.R) {
